@@ -46,9 +46,9 @@ def main():
         base = (seed * 1000003 + spec['seed_offset'] * 101 + bi * 7) * 100000
         out = os.path.join(ROOT, 'build', 'tmp', 'summary_%s_%d_%d.json' % (pid, bi, os.getpid()))
         cmd = [os.path.join(bd, 'simfact'), 'batch', '--profile', b['profile'], '--base', str(base), '--count', str(count),
-               '--workers', str(b.get('workers', 16 if b['flavour'] != 'asan' else 12)), '--tier', '0' if tier == 'quick' else '1',
+               '--workers', str(b.get('workers', 16 if 'asan' not in b['flavour'] else 12)), '--tier', '0' if tier == 'quick' else '1',
                '--out', out, '--known', known_arg, '--flavour', b['flavour'], '--replay-dir', os.path.join(ROOT, 'replays'),
-               '--timeout', str(b.get('timeout', 60 if b['flavour'] == 'asan' else 30)),
+               '--timeout', str(b.get('timeout', 60 if 'asan' in b['flavour'] else 30)),
                '--wall-cap', os.environ.get('VERIF_WALL_CAP') or str(b.get('wall_cap_quick', 240) if tier == 'quick' else b.get('wall_cap_thorough', 3000))]
         if 'S' in b: cmd += ['--S', str(b['S'] if tier == 'quick' else b.get('S_thorough', b['S']))]
         r = subprocess.run(cmd, capture_output=True, text=True)
